@@ -101,6 +101,9 @@ InitCorrupt == \/ c \in [k : {"trunc"}, n : 0..RealLen]
                \* a length field (varint with a 1-byte prefix) inflated to 2^21 / 2^24: the decoder must notice that
                \* the input cannot hold that much before it allocates
                \/ c \in [k : {"inflate"}, p : 1..RealLen, x : {21, 24}]
+               \* an encoded object whose header promises 2^x bytes of payload and brings n: type tags 7..14 are the
+               \* length-prefixed kinds (string, bytes, array, map, sync map, compiled function, function, builtin function)
+               \/ c \in [k : {"hugeobj"}, p : 7..14, x : {20, 24, 28}, n : {0, 5}]
                \* a byte moved to a neighbouring value: names, lengths, type tags and indexes off by one
                \/ c \in [k : {"bump"}, p : 1..RealLen, x : {0, 2}]
 Init == ph = 0 /\ (IF Mode = "strings" THEN InitStrings ELSE InitCorrupt)
